@@ -1302,3 +1302,68 @@ def malformed_cases(rng, n):
         fn["body"][pos:pos] = inj
         cases.append(c)
     return cases
+
+
+# ------------------------------------------------------------------ binding histories of ONE name (Spec/C12Bind.v)
+BIND_TYPES = ["User", "Profile", "Progress", "Ctx"]
+
+
+def bind_step(kind, x, t):
+    """one let statement that binds x: typable for the tool (typed, typed-noinit, struct, qstruct, ctor, copy, copy-ref) or not"""
+    un = ["ident", x, False]
+    return {"typed": ["let", ["typed", x, TY(t)], ["call", V("make"), []]],
+            "typed-noinit": ["let", ["typed", x, TY(t)], None],
+            "typed-ref": ["let", ["typed", x, ["ref", TY(t)]], ["ref", ["call", V("make"), []]]],
+            "struct": ["let", un, ["struct", [t]]],
+            "qstruct": ["let", ["ident", x, True], ["struct", ["models", t]]],
+            "ctor": ["let", un, ["call", P(t, "new"), []]],
+            "copy": ["let", un, V("user")],
+            "copy-ref": ["let", un, ["ref", ["ref", V("count")]]],
+            # un-typable for the tool: the table must stay as it is
+            "call": ["let", un, ["call", V("compute"), []]],
+            "noinit": ["let", un, None],
+            "lit": ["let", un, ["lit", "int"]],
+            "tuple": ["let", un, ["tuple", [V("count"), V("flag")]]],
+            "field": ["let", un, ["field", V("state"), "inner"]],
+            "copy-unknown": ["let", un, V("nowhere")],
+            "method": ["let", un, M(V("title"), "len")],
+            "block": ["let", un, ["block", [["expr", ["call", V("compute"), []]]]]],
+            }[kind]
+
+
+BIND_TYPABLE = ("typed", "typed-noinit", "typed-ref", "struct", "qstruct", "ctor", "copy", "copy-ref")
+BIND_UNTYPABLE = ("call", "noinit", "lit", "tuple", "field", "copy-unknown", "method", "block")
+
+
+def binding_history_case(x, is_param, steps, forms):
+    """params (x among them or not), then the steps; an emit of x after EVERY step (and one before the first), so that one
+    function shows the table after every prefix of the history"""
+    params = [list(q) for q in STD_PARAMS]
+    if is_param:
+        params.append([x, None, TY("Settings")])
+    wrapf = {"x": lambda v: v, "&x": lambda v: ["ref", v], "x.clone()": lambda v: M(v, "clone")}
+    body = [["expr", M(EMIT(V("app"), "h0", wrapf[forms[0]](V(x))), "ok")]]
+    for k, (kind, t) in enumerate(steps):
+        body.append(bind_step(kind, x, t))
+        if k % 2 == 1:
+            body.append(bind_step(("typed", "call")[k % 4 == 1], "other", "Ctx"))        # a binding of another name in between
+        body.append(["expr", M(EMIT(V("app"), "h%d" % (k + 1), wrapf[forms[(k + 1) % len(forms)]](V(x))), "ok")])
+    return single(body, params=params)
+
+
+def enum_bindings(rng, n_random):
+    cases = []
+    forms = ["x", "&x", "x.clone()"]
+    kinds = BIND_TYPABLE + BIND_UNTYPABLE
+    # every pair of kinds (second re-binds the first), with and without a parameter of the same name
+    i = 0
+    for a in kinds:
+        for b in kinds:
+            i += 1
+            cases.append(binding_history_case(("item", "data", "u")[i % 3], i % 2 == 0, [(a, BIND_TYPES[i % 4]), (b, BIND_TYPES[(i + 1) % 4])],
+                                              forms[i % 3:] + forms[:i % 3]))
+    # random histories of three to six bindings; un-typable steps are half of the draws
+    for _ in range(n_random):
+        steps = [(rng.choice(BIND_UNTYPABLE if rng.random() < 0.5 else BIND_TYPABLE), rng.choice(BIND_TYPES)) for _ in range(rng.randint(3, 6))]
+        cases.append(binding_history_case(rng.choice(["item", "data", "u", "r#type"]), rng.random() < 0.4, steps, [rng.choice(forms) for _ in range(3)]))
+    return cases
